@@ -53,6 +53,16 @@ CHECKS = {
     category='exploration', design='4/C13',
     text="~600 generated inputs per quick run, ~2400 operations (split+recombine, canonicalize_sign, permute_num, cancel_orb_energy_frac, symbolic<->explicit denominators, factor_eri_parts, factor_denom, diagonalize_fock, block_diagonalize_fock) compared on all target assignments; documented refusals counted per operation.",
     note="Trusted: TM evaluator incl. element-wise modular inversion of brackets; real orbital basis."),
+ 'C06': dict(
+    technique="runtime monitor: brute-force orbit oracle on the public tensor constructors (construction and subs), forced-zero and non-identification probes, assumption-step contracts (idempotence, untouched names, TM value), and a history monitor hooked on the tensor classes' __new__ during real derivations",
+    category='exploration', design='4/C06',
+    text="~900 tuples x whole orbit (~7000 constructed elements) per quick run over pools mixing spaces, spins, numbered names, repeated indices and same-name distinct Index objects; 90 delta cases; 200 assumption cases; ~1100 monitored constructions of three derivation pipelines.",
+    note="Trusted: sympy structural identity (a - s*b is S.Zero). A consistent but different tie-break order in the bra-ket canonicalisation is not a violation (identification is what the property states)."),
+ 'C08': dict(
+    technique="runtime monitor: IR reference model (simultaneous substitution / sequential transpositions rebuilt through the constructors), lowest-name and fresh-generic-name oracles with TM value check, and an offline checker over the event log of hooked Indices.get_indices / get_generic_indices requests",
+    category='exploration', design='4/C08',
+    text="~320 index maps (chains, cycles, chains into cycles, many-to-one, identities, mixed spaces/spins), 160 permutation sequences, 260 renaming cases (targets colliding with low names, spins, numbered names) and 6 registry histories of 50-500 interleaved requests (~1900 logged events) per quick run.",
+    note="Trusted: IR substitution code (20 lines), name_sequence re-implementation of the documented name order."),
 }
 
 NOT_YET = {}
